@@ -19,7 +19,13 @@ fn inum(x: i64) -> Value {
 
 const NAMES: &[&str] = &["a", "b", "c", "k1", "x", "y", "0", "init", "optional", "size", "values", "min", "type x", "typeDefault", "typeDef", "typeDefx", "valueType", "q\"uote", "semi;colon", "sp ace", "\u{e9}\u{1F600}",
     // long names of multi-byte characters: a path hint cut at a byte offset lands inside one of them
-    "\u{3bb}\u{3bb}\u{3bb}\u{3bb}\u{3bb}\u{3bb}\u{3bb}\u{3bb}\u{3bb}\u{3bb}\u{3bb}\u{3bb}\u{3bb}x", "\u{e9}\u{e9}\u{e9}\u{e9}\u{e9}\u{e9}\u{e9}\u{e9}\u{e9}\u{e9}\u{e9}\u{e9}\u{e9}\u{e9}\u{e9}\u{e9}\u{e9}\u{e9}\u{e9}\u{e9}", "z\u{540d}\u{524d}\u{540d}\u{524d}\u{540d}\u{524d}\u{540d}\u{524d}\u{540d}\u{524d}"];
+    "\u{3bb}\u{3bb}\u{3bb}\u{3bb}\u{3bb}\u{3bb}\u{3bb}\u{3bb}\u{3bb}\u{3bb}\u{3bb}\u{3bb}\u{3bb}x", "\u{e9}\u{e9}\u{e9}\u{e9}\u{e9}\u{e9}\u{e9}\u{e9}\u{e9}\u{e9}\u{e9}\u{e9}\u{e9}\u{e9}\u{e9}\u{e9}\u{e9}\u{e9}\u{e9}\u{e9}", "z\u{540d}\u{524d}\u{540d}\u{524d}\u{540d}\u{524d}\u{540d}\u{524d}\u{540d}\u{524d}",
+    // names longer than 64 bytes by themselves, multi-byte characters followed by one, two or three ASCII ones: a hint
+    // cut 64 bytes from either end lands inside a character for some of them, whatever the nesting adds
+    "\u{540d}\u{540d}\u{540d}\u{540d}\u{540d}\u{540d}\u{540d}\u{540d}\u{540d}\u{540d}\u{540d}\u{540d}\u{540d}\u{540d}\u{540d}\u{540d}\u{540d}\u{540d}\u{540d}\u{540d}\u{540d}\u{540d}qq",
+    "\u{1F600}\u{1F600}\u{1F600}\u{1F600}\u{1F600}\u{1F600}\u{1F600}\u{1F600}\u{1F600}\u{1F600}\u{1F600}\u{1F600}\u{1F600}\u{1F600}\u{1F600}\u{1F600}\u{1F600}xyz",
+    "a\u{3bb}\u{3bb}\u{3bb}\u{3bb}\u{3bb}\u{3bb}\u{3bb}\u{3bb}\u{3bb}\u{3bb}\u{3bb}\u{3bb}\u{3bb}\u{3bb}\u{3bb}\u{3bb}\u{3bb}\u{3bb}\u{3bb}\u{3bb}\u{3bb}\u{3bb}\u{3bb}\u{3bb}\u{3bb}\u{3bb}\u{3bb}\u{3bb}\u{3bb}\u{3bb}\u{3bb}\u{3bb}\u{3bb}b",
+    "\u{e9}\u{e9}\u{e9}\u{e9}\u{e9}\u{e9}\u{e9}\u{e9}\u{e9}\u{e9}\u{e9}\u{e9}\u{e9}\u{e9}\u{e9}\u{e9}\u{e9}\u{e9}\u{e9}\u{e9}\u{e9}\u{e9}\u{e9}\u{e9}\u{e9}\u{e9}\u{e9}\u{e9}\u{e9}\u{e9}\u{e9}\u{e9}\u{e9}k"];
 const TYPE_NAMES: &[&str] = &["t1", "t2", "foo", "my type"];
 
 struct Gen<'a> {
